@@ -23,28 +23,32 @@ var QuickCounts = map[string]int{
 
 // Run generates history n of a family from its seed. It never panics on implementation
 // misbehaviour (that is recorded), only on harness bugs.
-func Run(family string, n int, seed uint64, tier string) *Result {
+func Run(c Cfg) *Result {
+	family := c.Family
+	if c.Sub != "" {
+		family = c.Sub
+	}
 	switch family {
 	case "mix":
-		return runMix(family, n, seed, tier)
+		return runMix(c)
 	case "market":
-		return runMarket(family, n, seed, tier)
+		return runMarket(c)
 	case "expiry":
-		return runExpiry(family, n, seed, tier)
+		return runExpiry(c)
 	case "basket":
-		return runBasket(family, n, seed, tier)
+		return runBasket(c)
 	case "bridge":
-		return runBridge(family, n, seed, tier)
+		return runBridge(c)
 	case "roles":
-		return runRoles(family, n, seed, tier)
+		return runRoles(c)
 	case "params":
-		return runParams(family, n, seed, tier)
+		return runParams(c)
 	case "ids":
-		return runIDs(family, n, seed, tier)
+		return runIDs(c)
 	case "genesis":
-		return runGenesis(family, n, seed, tier)
+		return runGenesis(c)
 	case "data":
-		return runData(family, n, seed, tier)
+		return runData(c)
 	}
 	panic("gen: unknown family " + family)
 }
@@ -82,7 +86,7 @@ func (g *G) standardSetup(nClasses, nProjects, nBatches, nBaskets int) world {
 	fr := []string{"", "0", "0.003", "0.01", "0.5"}
 	g.gov(g.App.MsgGovSetFeeParams(fr[g.R.Intn(len(fr))], fr[g.R.Intn(len(fr))]), "fee params")
 	if g.R.Chance(1, 3) {
-		g.gov(g.App.MsgAddCreditType(&baseCreditType), "add credit type BIO")
+		g.gov(g.App.MsgAddCreditType(bioType()), "add credit type BIO")
 	}
 	w := g.setupCredits(nClasses, nProjects, nBatches)
 	for i := 0; i < nBaskets && len(w.classes) > 0; i++ {
@@ -96,8 +100,8 @@ func (g *G) standardSetup(nClasses, nProjects, nBatches, nBaskets int) world {
 	return w
 }
 
-func runMix(family string, n int, seed uint64, tier string) *Result {
-	g := NewG(family, n, seed, tier, chain.Options{GenesisTime: T0})
+func runMix(c Cfg) *Result {
+	g := NewG(c, chain.Options{GenesisTime: T0})
 	g.standardSetup(1+g.R.Intn(2), 1+g.R.Intn(2), 1+g.R.Intn(2), 1+g.R.Intn(2))
 	g.blocks(5+g.R.Intn(9), 2, 8, mixOps)
 	return g.Finish()
@@ -193,14 +197,14 @@ var marketOps = []wop{
 	{6, opFeeParams, "fees"}, {5, opDenomChurn, "denoms"}, {3, opSend, "send"}, {1, opGov, "gov"},
 }
 
-func runMarket(family string, n int, seed uint64, tier string) *Result {
-	r := common.NewRng(seed ^ 0x6d61726b6574)
+func runMarket(c Cfg) *Result {
+	r := common.NewRng(c.Seed ^ 0x6d61726b6574)
 	opts := chain.Options{GenesisTime: T0}
 	rich := r.Chance(1, 3)
 	if rich {
 		opts.FundingAmount = "1" + fmt.Sprintf("%040d", 0) // 10^40 of each denom per user
 	}
-	g := NewG(family, n, seed, tier, opts)
+	g := NewG(c, opts)
 	g.badPct = 18
 	g.Begin(g.now.Add(6 * time.Second))
 	g.setupDenoms()
@@ -219,8 +223,8 @@ func runMarket(family string, n int, seed uint64, tier string) *Result {
 // ---------------------------------------------------------------------------------------------
 // 3. expiry
 
-func runExpiry(family string, n int, seed uint64, tier string) *Result {
-	g := NewG(family, n, seed, tier, chain.Options{GenesisTime: T0})
+func runExpiry(c Cfg) *Result {
+	g := NewG(c, chain.Options{GenesisTime: T0})
 	g.badPct = 10
 	g.Begin(g.now.Add(6 * time.Second))
 	g.setupDenoms()
